@@ -348,7 +348,7 @@ pub fn run(tier: Tier, seed: u64) -> i32 {
     let mut s = Session::new("C17", tier, seed, "exploration", rule);
     s.assume("in-process the plugin's logging layer is disabled (logging::init installs a process-global subscriber once); log/reply interleaving is covered by the E2E phase");
     s.regress::<WireCase, _>("wire", check);
-    s.search("wire", "wire", tier.pick(800, 8000), case_strategy, check);
+    s.search("wire", "wire", tier.pick(800, 30000), case_strategy, check);
     crate::e2e::c17_e2e(&mut s);
     s.finish()
 }
